@@ -289,9 +289,9 @@ Fixpoint star_iter (n : nat) (f : list nat -> option (list nat)) (S : list nat) 
 Fixpoint post (n : nat) (e : rx) (S : list nat) : option (list nat) :=
   match e with
   | REps => Some S
-  | RSym r => Some (map (fun s => step s r) S)
+  | RSym r => Some (nodup Nat.eq_dec (map (fun s => step s r) S))
   | RSeq a b => obind (post n a S) (post n b)
-  | RAlt a b => obind (post n a S) (fun A => obind (post n b S) (fun B => Some (A ++ B)))
+  | RAlt a b => obind (post n a S) (fun A => obind (post n b S) (fun B => Some (union A B)))
   | RStar a => star_iter n (post n a) S
   end.
 
@@ -311,11 +311,11 @@ Theorem post_sound n : forall e S T, post n e S = Some T ->
 Proof.
   induction e as [|r|a IHa b IHb|a IHa b IHb|a IHa]; intros S T Hp w Hw s Hs; cbn [post] in Hp.
   - inversion Hp; subst. inversion Hw; subst. exact Hs.
-  - inversion Hp; subst. inversion Hw; subst. cbn. apply in_map_iff. exists s. split; [reflexivity|exact Hs].
+  - inversion Hp; subst. inversion Hw; subst. cbn. apply nodup_In. apply in_map_iff. exists s. split; [reflexivity|exact Hs].
   - apply obind_some in Hp. destruct Hp as [M [Ha Hb]]. inversion Hw; subst. rewrite dfa_run_app.
     eapply IHb; [exact Hb|eassumption|]. eapply IHa; eassumption.
   - apply obind_some in Hp. destruct Hp as [A [Ha Hp]]. apply obind_some in Hp. destruct Hp as [B [Hb Hp]].
-    inversion Hp; subst. apply in_or_app. inversion Hw; subst; [left; eapply IHa; eassumption|right; eapply IHb; eassumption].
+    inversion Hp; subst. inversion Hw; subst; [apply union_l; eapply IHa; eassumption|apply union_r; eapply IHb; eassumption].
   - destruct (star_iter_spec _ _ _ Hp) as [Hincl [T' [HT' Hclosed]]].
     assert (Hgen : forall w, rx_in (RStar a) w -> forall s, In s T -> In (dfa_run s w) T).
     { clear w Hw s Hs. intros w Hw. remember (RStar a) as e eqn:Ee. induction Hw; try discriminate.
